@@ -83,7 +83,9 @@ ECase(i) == CasesIn[EResults[i].id]
 \* answered, and with the answer to a request of the same identity (never somebody else's entry)
 EWrong == {i \in 1..EN : LET r == EResults[i] IN
               \/ r.s1 # 200 \/ r.s2 # 200 \/ r.e1 = 0 \/ r.e2 = 0
-              \/ CasesIn[r.e1].loose # ECase(i).loose \/ CasesIn[r.e2].loose # ECase(i).loose}
+              \/ CasesIn[r.e1].loose # ECase(i).loose \/ CasesIn[r.e2].loose # ECase(i).loose
+              \* third pass: over one CONNECT tunnel; the request's own Host header names the resource
+              \/ ("e3" \in DOMAIN r /\ (r.s3 # 200 \/ r.e3 = 0 \/ CasesIn[r.e3].loose # ECase(i).loose))}
 \* every identity was fetched exactly once: a GET identity split over two entries costs a second fetch
 GetIdentities == {ECase(i).strict : i \in {j \in 1..EN : ECase(j).method = "GET"}}
 EJudge == PrintT(<<"KEY-E2E-RESULT", EN, Cardinality(EWrong), ESummary.getContactsFirstPass, Cardinality(GetIdentities),
